@@ -4,8 +4,8 @@ CONSTANTS
   MaxRoots = 2
   MaxDelay = 1
   MaxKids = 2
-  Bounds = {0, 1, 2, 3}
-  MaxCalls = 3
+  Bounds = {0, 1, 2}
+  MaxCalls = 2
 INVARIANTS ImplIsAbs ExactlyOnce RunReturnsOnlyWhenEmpty RunUntilExact NoPastPending Emit
 PROPERTIES TimeMonotone PrimaryFirst FifoWithinClass EarliestFirst
 CHECK_DEADLOCK FALSE
